@@ -27,6 +27,7 @@ type apiSim struct {
 	h      *Hist
 	excess int
 	viaSim bool // the world sits on the wrapper SQL driver
+	long   bool // the longest chain is about as long as, or longer than, the default page of the listing
 	// non-triviality bookkeeping
 	nt map[string]int
 }
@@ -65,12 +66,18 @@ func apisimExec(r *Run) {
 	}
 	h.DrawCfg(cap)
 	long := false
-	if r.Prop == "C13" {
+	if r.Prop == "C13" || r.Prop == "C08" {
 		den := 40
 		if r.Tier == "thorough" {
 			den = 8
 		}
-		if r.T.Chance(1, den, "long-chain") {
+		if r.Prop == "C08" {
+			// the listing over a chain longer than the default page (2000): rare in the quick tier (a long chain costs
+			// seconds: about one run per worker of a quick check), walked with the default page, its neighbours and
+			// sizes beyond it
+			den *= map[bool]int{false: 40, true: 20}[r.Tier == "thorough"]
+		}
+		if r.Opt["longchain"] == "1" || r.T.Chance(1, den, "long-chain") {
 			long = true
 			n := r.T.Range(1990, 2300, "long-len")
 			if r.Tier == "thorough" && r.T.Chance(1, 4, "very-long") {
@@ -79,6 +86,7 @@ func apisimExec(r *Run) {
 			h.ExtendBest(n)
 			r.Probe("long-chain")
 			r.Cfg["long"] = n
+			a.long = true
 		}
 	}
 	if r.Prop == "C08" || r.Prop == "C02" || r.Prop == "C04" {
@@ -736,6 +744,12 @@ func (a *apiSim) c08() {
 		}
 	}
 	batch := t.Range(1, len(lc0)+2, "batch")
+	if a.long {
+		// page sizes around the documented default, around the chain length, and well beyond both; 0 stands for
+		// "no batchSize parameter" (the default page)
+		sizes := []int{0, 1999, 2000, 2001, 2002, len(lc0) - 1, len(lc0), len(lc0) + 1, 2500, 5000, 700 + batch%1500}
+		batch = sizes[t.Draw(len(sizes), "long-batch")]
+	}
 	interleave := t.Chance(1, 3, "interleave")
 	before := w.TableDigest("headers")
 	stable := map[string]int64{} // blocks longest for the whole walk
@@ -758,6 +772,9 @@ func (a *apiSim) c08() {
 			r.Fail("C08", "walk-does-not-end", fmt.Sprintf("batch=%d", batch), "walk with batchSize=%d did not end after %d pages over a chain of %d", batch, pages, len(lc0))
 		}
 		q := fmt.Sprintf("/api/v1/chain/merkleroot?batchSize=%d", batch)
+		if batch == 0 {
+			q = "/api/v1/chain/merkleroot?"
+		}
 		if key != "" {
 			q += "&lastEvaluatedKey=" + url.QueryEscape(key)
 		}
@@ -777,7 +794,7 @@ func (a *apiSim) c08() {
 			r.Fail("C08", "page-json", "parse", "GET %s -> %s (%v)", q, string(body), err)
 		}
 		pages++
-		if len(pg.Content) > batch {
+		if batch > 0 && len(pg.Content) > batch { // (no parameter: whatever page size the service chooses)
 			r.Fail("C08", "page-size", "exceeds-batch", "page has %d entries, batchSize=%d", len(pg.Content), batch)
 		}
 		lcNow := m.LongestChain()
